@@ -200,7 +200,7 @@ def run(clause, ks):
                         got = ov(v)
                     except TypeError as e:
                         s_ = str(e)
-                        got = "AMBIGUOUS" if s_.startswith("Ambiguous") else "NOMETHOD" if s_.startswith("No method") else f"TypeError:{s_[:40]}"
+                        got = "AMBIGUOUS" if __import__("_errs").amb(s_) else "NOMETHOD" if __import__("_errs").nomethod(s_) else f"TypeError:{s_[:40]}"
                     if got != want:
                         out.append(dict(type=cname, nesting=wrap, passed=v.__name__, got=got, expected=want))
     elif clause == "virtual_subclass":
